@@ -3,7 +3,7 @@
    Model: Tcp/Sender.v (TCPPacketGenerator.put / timeout_callback / run + CongestionControl).
    [fx] ranges over the repair flags; every theorem that needs the deflation repair says so. *)
 From Coq Require Import ZArith QArith Qabs Qminmax List.
-From ONL Require Import Tcp.Sender Tcp.SenderProofs.
+From ONL Require Import Tcp.Sender Tcp.SenderProofs Gen.Extracted_cc Tcp.CcBridge.
 Import ListNotations.
 Open Scope Z_scope.
 
@@ -171,3 +171,38 @@ Print Assumptions C17_never_zero_div.
 Theorem C17_wake_never_out_of_fuel : forall c s, 0 < mss c -> on_wake c s <> Raise OutOfFuel.
 Proof. exact wake_never_out_of_fuel. Qed.
 Print Assumptions C17_wake_never_out_of_fuel.
+
+(* --- second tie (DESIGN 2.6): the CongestionControl method bodies translated from /repo on this run
+   (Gen/Extracted_cc.v) are what the model uses.  A changed constant / operator / comparison in
+   tcp_generator.py breaks one of these before any test input is drawn. --- *)
+Theorem C17_gen_timer_expired : forall m cw ss,
+  let s' := g_CongestionControl_timer_expired (mkcc (zq m) cw ss) in
+  x_cwnd s' = zq m /\ x_ssthresh s' = ss.
+Proof. exact bridge_timer_expired. Qed.
+Print Assumptions C17_gen_timer_expired.
+
+Theorem C17_gen_dupack_over : forall m cw ss,
+  let s' := g_CongestionControl_dupack_over (mkcc (zq m) cw ss) in
+  x_cwnd s' = ss /\ x_ssthresh s' = ss.
+Proof. exact bridge_dupack_over. Qed.
+Print Assumptions C17_gen_dupack_over.
+
+Theorem C17_gen_fast_retransmit : forall m cw ss,
+  let s' := g_CongestionControl_consecutive_dupacks_received (mkcc (zq m) cw ss) in
+  (x_ssthresh s' == fr_ssthresh m cw)%Q /\ (x_cwnd s' == fr_cwnd m cw)%Q.
+Proof. exact bridge_fast_retransmit. Qed.
+Print Assumptions C17_gen_fast_retransmit.
+
+Theorem C17_gen_more_dupacks : forall m cw ss,
+  let s' := g_CongestionControl_more_dupacks_received (mkcc (zq m) cw ss) in
+  x_cwnd s' = (cw + zq m)%Q /\ x_ssthresh s' = ss.
+Proof. exact bridge_more_dupacks. Qed.
+Print Assumptions C17_gen_more_dupacks.
+
+Theorem C17_gen_reno_ack : forall c cw ss ccnt cn o,
+  calg c = Reno -> ~ (cw == 0)%Q ->
+  exists cw', cc_ack c cw ss ccnt cn o = Some (cw', ccnt, cn) /\
+              (cw' == x_cwnd (g_TCPReno_ack_received (mkcc (zq (mss c)) cw ss)))%Q /\
+              x_ssthresh (g_TCPReno_ack_received (mkcc (zq (mss c)) cw ss)) = ss.
+Proof. exact bridge_reno_ack. Qed.
+Print Assumptions C17_gen_reno_ack.
